@@ -21,7 +21,16 @@ R  the same bound is enumerated here from the same constants (quick: a seeded
    to TLC which evaluates InBound, NoInversion, SameAsPlan, OrderKey, ... on it.
 T  larger seeded-random instances (<= 8 tasks, two resource names, several
    strategies, ties) -> call records -> the same TLC evaluation.
-X  (thorough, notes only) pools with several workers, outside the gating bound.
+W  (round 5, gating) pools with several workers: directed instances (a task that prefers
+   the gpu worker and falls back to the cpu worker, for all three policies), the 'mw' slice
+   of the bound (TLC proves Theorem on it, the replay samples it) and seeded-random
+   instances with 1-3 workers per pool.  A Placement names the pool, not the worker:
+   Greedy!InvertedK judges an unplaced task on such a pool only if it has room under EVERY
+   assignment of the placed tasks of higher-or-equal priority to the pool's workers that is
+   consistent with their reported strategies; records where some consistent assignment
+   leaves no room are counted (mw_room_under_some_assignment_only_not_judged), not judged.
+X  (thorough, notes only) pools with several workers: exact-plan comparison, LSF's former
+   strategy-less place_task (CodedPlan).
 
 Realisation (round 4).  All times of an instance are microseconds (the bounds are
 scaled so that they are multiples of 1000 / 10^6); the real objects carry every
@@ -75,13 +84,23 @@ STAT_NAMES = [
     "unit_blind_order_differs",
     "unit_blind_plan_inverts",
     "multi_instance_worker",
+    "multi_worker_pool",
+    "mw_some_task_unplaced",
+    "mw_unplaced_task_meets_several_assignments",
+    "mw_room_under_some_assignment_only_not_judged",
     "answer_equals_plan",
 ]
-RECORD_ONLY = ("some_time_not_in_us", "unit_blind_order_differs", "unit_blind_plan_inverts", "multi_instance_worker")
+UNIT_ONLY = ("some_time_not_in_us", "unit_blind_order_differs", "unit_blind_plan_inverts", "multi_instance_worker")
+# counted by Greedy!MWStats: the clause for pools with several workers (round 5)
+MW_ONLY = (
+    "multi_worker_pool", "mw_some_task_unplaced", "mw_unplaced_task_meets_several_assignments",
+    "mw_room_under_some_assignment_only_not_judged",
+)
+RECORD_ONLY = UNIT_ONLY + MW_ONLY
 MS, SEC = 1000, 10**6
 UNIT_US = {"US": 1, "MS": MS, "S": SEC}
 # time scale of the slices of the bound: microseconds per unit of the small numbers written in slices()
-SCALE = {"edf": MS, "fifo": SEC, "lsf": MS, "pre": SEC, "fit": MS}
+SCALE = {"edf": MS, "fifo": SEC, "lsf": MS, "pre": SEC, "fit": MS, "mw": MS}
 
 
 # ---------------------------------------------------------------------------
@@ -104,6 +123,11 @@ def _tk(strats, s=0, done=0, on=0):
 def _pool(av, cap=None):
     """single-worker pool"""
     return {"cap": [list(cap or [2] * len(av))], "av": [list(av)]}
+
+
+def _mpool(avs, cap=None):
+    """pool with one worker per availability vector"""
+    return {"cap": [list(cap or [2] * len(a)) for a in avs], "av": [list(a) for a in avs]}
 
 
 def _profiles(deadlines, releases, graphs):
@@ -178,6 +202,21 @@ def slices(size: str) -> dict:
         prof += [{"deadline": 7, "release": 1, "graph": 1}]
     three = [[_pool(a), _pool(b), _pool(c)] for a, b, c in (([1, 0], [0, 1], [1, 1]), ([0, 1], [0, 1], [2, 0]), ([0, 0], [1, 0], [1, 2]))]
     s["fit"] = dict(Kinds=list(KINDS), Now=2, MaxTasks=3, KeyProfiles=prof, StratLists=lists, PoolSeqs=_pool_seqs(avs, (1, 2)) + three)
+    # --- pools with several workers (round 5): two resource names ("cpu", "gpu"), a task that
+    # prefers the gpu and falls back to the cpu, workers whose free resources differ; the
+    # Placement names the pool, not the worker: NoInversion quantifies over the assignments
+    mlists = [[_st([0, 1], 1), _st([1, 0], 3)], [_st([1, 0], 1)], [_st([0, 1], 1)], [_st([2, 0], 2)]]
+    mpools = [
+        [_mpool([[1, 0], [0, 1]])],
+        [_mpool([[1, 0], [2, 0]])],
+        [_mpool([[2, 0], [1, 1]])],
+        [_mpool([[1, 0], [0, 1], [1, 1]])],
+        [_mpool([[0, 1], [1, 0]]), _pool([1, 1])],
+    ]
+    if big:
+        mlists += [[_st([1, 0], 1), _st([0, 1], 2)]]
+        mpools += [[_mpool([[0, 1], [1, 0]])], [_mpool([[2, 1], [1, 0], [0, 1]])]]
+    s["mw"] = dict(Kinds=list(KINDS), Now=2, MaxTasks=3, KeyProfiles=prof, StratLists=mlists, PoolSeqs=mpools)
     return {tag: scale_bound(b, SCALE[tag]) for tag, b in s.items()}
 
 
@@ -1065,7 +1104,72 @@ def random_instance(r, max_tasks=8, workers=(1,), nres=None, kind="EDF", partial
 
 
 # ---------------------------------------------------------------------------
-# X: pools with several workers (outside the gating bound; notes only)
+# W: pools with several workers, gating (round 5).  A pool-level Placement does not name the
+# worker: Greedy!InvertedK judges an unplaced task on such a pool only if it has room under
+# EVERY assignment of the placed higher-or-equal-priority tasks to the pool's workers that is
+# consistent with their reported strategies (the policy's own choice is one of them).
+
+
+def directed_multi_worker():
+    """hand-written instances: a pool whose workers' free resources differ (W1 cpu, W2 gpu), a task
+    H that prefers the gpu and falls back to the cpu, M that needs the cpu, L that needs the gpu;
+    priorities H > M > L under all three policies (deadline, release, slack).  Variants: worker
+    order, a third worker, partially occupied workers, a second pool, ties, offer order."""
+    gpu_cpu, cpu, gpu = [_st([0, 1], 1), _st([1, 0], 4)], [_st([1, 0], 1)], [_st([0, 1], 1)]
+    cpu_gpu = [_st([1, 0], 1), _st([0, 1], 4)]
+
+    def task(level, strats):
+        return {"deadline": 5 + level, "release": level, "graph": 0, "strats": strats, "ran": dict(FRESH)}
+
+    def three(a, b, c):
+        return [task(0, a), task(1, b), task(2, c)]
+
+    free = lambda avs: _mpool(avs, [1, 1])  # noqa: E731
+    out = []
+    for tasks in (three(gpu_cpu, cpu, gpu), [task(0, gpu_cpu), task(1, cpu)], [task(0, gpu_cpu), task(0, cpu), task(0, gpu)]):
+        out.append({"tasks": tasks, "pools": [free([[1, 0], [0, 1]])]})
+        out.append({"tasks": list(reversed(tasks)), "pools": [free([[1, 0], [0, 1]])]})
+        out.append({"tasks": tasks, "pools": [free([[1, 0], [0, 0], [0, 1]])]})
+        out.append({"tasks": tasks, "pools": [_mpool([[1, 0], [0, 1]])]})  # capacity 2, partially occupied
+        out.append({"tasks": tasks, "pools": [_pool([0, 0]), free([[1, 0], [0, 1]])]})
+    # mirrored: the preferred strategy fits only the second worker's cpu
+    out.append({"tasks": three(cpu_gpu, gpu, cpu), "pools": [free([[0, 1], [1, 0]])]})
+    out.append({"tasks": three(cpu_gpu, gpu, cpu) + [task(2, gpu_cpu)], "pools": [free([[0, 1], [1, 0]]), free([[0, 1], [0, 0]])]})
+    # first fit inside the pool decides whether the last task fits: not judged, whatever the worker
+    out.append({"tasks": [task(0, cpu), task(1, [_st([2, 0], 1)])], "pools": [_mpool([[2, 0], [1, 1]])]})
+    out.append({"tasks": [task(0, cpu), task(1, [_st([2, 0], 1)])], "pools": [_mpool([[1, 1], [2, 0]])]})
+    return [scale_instance({"now": 2, "preemptive": False, **i}, MS) for i in out]
+
+
+def multi_worker_specs(q, small, large, scale):
+    """[(tag, bound, items, gating)]: the directed instances, the 'mw' slice of the bound (quick: a
+    sample; thorough: all of it + a sample of the large one), a slice of the random exploration"""
+    specs = []
+    rr = rng("c13-real-W-directed")
+    items = []
+    for inst in directed_multi_worker():
+        for kind in KINDS:
+            items.append((kind, inst, False, None))
+            items.append((kind, inst, False, realisation(inst, rr)))
+    specs.append(("directed", NO_BOUND, items, True))
+    for name, bounds, n in (("mw", small, 200 if q else None), ("large-mw", large, int(4000 * scale))):
+        b = bounds.get("mw")
+        if b:
+            insts = sample_bound(b, n, rng(f"c13-W-{name}")) if n else list(enumerate_bound(b))
+            rr = rng(f"c13-real-W-{name}")
+            specs.append((name, b, [(kind, i, True, realisation(i, rr)) for i in insts for kind in b["Kinds"]], True))
+    r = rng("c13-W-random")
+    rr = rng("c13-real-W-random")
+    items = []
+    for i in range(300 if q else int(9000 * scale)):
+        inst = random_instance(r, 4, workers=(1, 2, 2, 3), partial=False, scale=MS)
+        items.append((KINDS[i % 3], inst, False, realisation(inst, rr) if i % 2 else None))
+    specs.append(("random", NO_BOUND, items, True))
+    return specs
+
+
+# ---------------------------------------------------------------------------
+# X: pools with several workers, exact-plan comparison (notes only)
 
 
 def explore_bound():
@@ -1122,9 +1226,8 @@ def absorb_explore(res, enum_outs, rec_outs):
     combos = {k: v for k, v in tot["info"].items() if ": " in k and v}
     res.notes.append(
         f"multi-worker random records ({tot['n']}, notes only, not gated): failing clause combinations per policy {combos}. "
-        "C13.no_inversion alone (answer = Plan) comes from the first-fit choice of the worker inside a pool under the "
-        "'some assignment to the pool's workers exists' reading and affects all three policies; failures together with "
-        "C13.plan_eq are LSF's strategy-less place_task."
+        "C13.no_inversion is judged over every consistent assignment of the placed tasks to the pool's workers (phase W gates "
+        "it); C13.plan_eq / model.coded_eq compare with the exact plan / with the plan of a strategy-less place_task."
     )
 
 
@@ -1136,7 +1239,11 @@ def run(tier: str) -> CheckResult:
     q = tier == "quick"
     procs = 18 if q else 16
     res.assumptions = [
-        "gating instances have single-worker pools whose worker lists one or two resource instances per name; demands use the "
+        "a worker lists one or two resource instances per name; pools with several workers (phase W, slice 'mw'): the Placement "
+        "does not name the worker, an unplaced task is an inversion there only if it has room under every assignment of the placed "
+        "higher-or-equal-priority tasks to the pool's workers that is consistent with their reported strategies (the policy's own "
+        "first-fit choice is one of them, so the clause cannot fire on a correct policy; it is weaker than the statement where the "
+        "assignments disagree - counted, not judged); demands use the "
         "wildcard id ('any'); Greedy!VectorModelOK / VectorModelSplitOK tie the vector model (one quantity per name) to "
         "LedgerOps (FitsEach = CanAllocMulti = pointwise >= on the sums per name, before and after an allocation)",
         "all instance times are microseconds; the real objects carry each time in a unit (US / MS / S) that divides it, chosen "
@@ -1154,23 +1261,28 @@ def run(tier: str) -> CheckResult:
     large = {} if q else slices("large" if scale >= 1 else "small")
     inv = ["Theorem", "CodedIsPlan"]
     # development knob: VERIF_C13_PHASES=RT runs only the phases named (default all)
-    phases = os.environ.get("VERIF_C13_PHASES", "MRTX").upper()
+    phases = os.environ.get("VERIF_C13_PHASES", "MRTWX").upper()
     t0 = time.time()
     # ---- M
-    m_jobs = enum_jobs(small, lambda tag, b: {"fit": 3, "lsf": 3, "pre": 1}.get(tag, 2), inv, "small")
-    m_jobs += enum_jobs(large, lambda tag, b: 16, inv, "large")
+    # (the 'mw' slice has pools with several workers: CodedIsPlan - the strategy-less place_task - is not claimed there)
+    sw = lambda bs: {t: b for t, b in bs.items() if t != "mw"}  # noqa: E731
+    mw = lambda bs: {t: b for t, b in bs.items() if t == "mw"}  # noqa: E731
+    m_jobs = enum_jobs(sw(small), lambda tag, b: {"fit": 3, "lsf": 3, "pre": 1}.get(tag, 2), inv, "small")
+    m_jobs += enum_jobs(mw(small), lambda tag, b: 2, ["Theorem"], "small")
+    m_jobs += enum_jobs(sw(large), lambda tag, b: 16, inv, "large")
+    m_jobs += enum_jobs(mw(large), lambda tag, b: 16, ["Theorem"], "large")
     if "M" not in phases:
         m_jobs = []
     # ---- R
     r_specs = []
-    for tag, b in small.items():
+    for tag, b in sw(small).items():
         if q:
             insts = sample_bound(b, {"fit": 500, "pre": 300, "lsf": 800}.get(tag, 700), rng(f"c13-R-{tag}"))
         else:
             insts = list(enumerate_bound(b))
         rr = rng(f"c13-real-{tag}")
         r_specs.append((tag, b, [(kind, i, True, realisation(i, rr)) for i in insts for kind in b["Kinds"]], True))
-    for tag, b in large.items():
+    for tag, b in sw(large).items():
         insts = sample_bound(b, int(10000 * scale), rng(f"c13-RL-{tag}"))
         rr = rng(f"c13-real-large-{tag}")
         r_specs.append((f"large-{tag}", b, [(kind, i, True, realisation(i, rr)) for i in insts for kind in b["Kinds"]], True))
@@ -1182,13 +1294,16 @@ def run(tier: str) -> CheckResult:
     items = [(KINDS[i % 3], random_instance(r, kind=KINDS[i % 3]), False) for i in range(1200 if q else int(40000 * scale))]
     items = [(kind, i, bound, realisation(i, rr)) for kind, i, bound in items]
     t_jobs = record_jobs("T", [("random", NO_BOUND, items, True)] if "T" in phases else [], 1200 if q else 4000)
+    # ---- W
+    w_specs = multi_worker_specs(q, small, large, scale) if "W" in phases else []
+    w_jobs = record_jobs("W-multi-worker", w_specs, 1000 if q else 4000)
     # ---- X
     xe_jobs, xr_jobs = ([], []) if q or "X" not in phases else explore_jobs(tier)
-    jobs = m_jobs + r_jobs + t_jobs + xe_jobs + xr_jobs
+    jobs = m_jobs + r_jobs + t_jobs + w_jobs + xe_jobs + xr_jobs
     outs = run_jobs(jobs, procs)
     k = 0
     parts = []
-    for grp in (m_jobs, r_jobs, t_jobs, xe_jobs, xr_jobs):
+    for grp in (m_jobs, r_jobs, t_jobs, w_jobs, xe_jobs, xr_jobs):
         parts.append(outs[k : k + len(grp)])
         k += len(grp)
     counts = absorb_enum(res, parts[0])
@@ -1198,27 +1313,38 @@ def run(tier: str) -> CheckResult:
             raise tlc.TLCMachineryError(f"bound {tag}: TLC enumerated {counts.get('small/' + tag)} states, the harness counts {want}")
     absorb_records(res, "R", parts[1])
     if not q and m_jobs and r_jobs:
-        for tag, b in small.items():
+        for tag, b in sw(small).items():
             got = res.extra["records"]["R"]["by_slice"][tag]["records"]
             if got != counts[f"small/{tag}"]:
                 raise tlc.TLCMachineryError(f"R replayed {got} records of bound {tag}, TLC enumerated {counts['small/' + tag]}")
     absorb_records(res, "T", parts[2])
+    if w_jobs:
+        absorb_records(res, "W-multi-worker", parts[3])
+        by = res.extra["records"]["W-multi-worker"]["by_slice"]
+        res.extra["multi_worker_gating"] = {
+            "clause": "Greedy!InvertedK on a pool with several workers: the unplaced task has room under EVERY assignment of the "
+            "placed tasks of higher-or-equal priority to the pool's workers that is consistent with their reported strategies",
+            "by_slice": {t: {"records": st["records"], **{k: st[k] for k in MW_ONLY}} for t, st in by.items()},
+        }
+        empty = [f"{t}:{k}" for t, st in by.items() for k in MW_ONLY if not st[k]]
+        if empty:
+            raise tlc.TLCMachineryError(f"multi-worker classes not exercised: {empty}")
     if xe_jobs:
-        absorb_explore(res, parts[3], parts[4])
+        absorb_explore(res, parts[4], parts[5])
     # the realisation classes of round 4: counted by Greedy!UnitStats, per slice (edf / fifo / lsf are
     # single-policy slices) - a slice without a record that tells a unit-blind policy apart is vacuous
     summary = {}
     for phase, ev in res.extra.get("records", {}).items():
-        if phase.startswith("X"):
+        if phase.startswith(("X", "W")):
             continue
         for tag, st in ev["by_slice"].items():
-            summary[f"{phase}/{tag}"] = {"records": st["records"], **{k: st[k] for k in RECORD_ONLY}}
+            summary[f"{phase}/{tag}"] = {"records": st["records"], **{k: st[k] for k in UNIT_ONLY}}
     res.extra["realisation"] = {
         "time_units": "every time of the real objects in US / MS / S (a unit that divides it), chosen per field",
         "resource_instances": "a worker lists a name as one instance or as two (ids c0, c1)",
         "by_slice": summary,
     }
-    vacuous = [f"{t}:{k}" for t, st in summary.items() for k in RECORD_ONLY if st["records"] >= 300 and not st[k]]
+    vacuous = [f"{t}:{k}" for t, st in summary.items() for k in UNIT_ONLY if st["records"] >= 300 and not st[k]]
     if vacuous:
         raise tlc.TLCMachineryError(f"realisation classes not exercised: {vacuous}")
     unbuilt = {ph: ev["harness_info"]["could_not_build"] for ph, ev in res.extra.get("records", {}).items() if ev["harness_info"].get("could_not_build")}
@@ -1230,9 +1356,9 @@ def run(tier: str) -> CheckResult:
             "spec.resync (stricter than the statement, or outside the gating bound; not violations): "
             + ", ".join(f"{c} x{n['count']}" for c, n in sorted(rs.items()))
         )
-    if phases != "MRTX" or scale != 1:
+    if phases != "MRTWX" or scale != 1:
         res.notes.append(f"partial run: VERIF_C13_PHASES={phases} VERIF_C13_SCALE={scale}")
-    res.extra["jobs"] = {"M": len(m_jobs), "R": len(r_jobs), "T": len(t_jobs), "X": len(xe_jobs) + len(xr_jobs), "processes": procs}
+    res.extra["jobs"] = {"M": len(m_jobs), "R": len(r_jobs), "T": len(t_jobs), "W": len(w_jobs), "X": len(xe_jobs) + len(xr_jobs), "processes": procs}
     res.extra["wall_all_jobs_s"] = round(time.time() - t0, 1)
     return res
 
